@@ -1891,7 +1891,11 @@ class BreakAction(Action, HasDefaultDebugInfo):
         return True
 
     def get_target_override_targets(self):
-        return [self.refers_to.end_state]
+        # the actions run in place of the rest of the loop can redirect too (an append that runs out of space)
+        targets = [self.refers_to.end_state]
+        for action in self.replacement_actions():
+            targets.extend(action.get_target_override_targets())
+        return targets
 
     def get_target_override_mode(self):
         return ActionOverrideMode.ALWAYS_GOTO_OTHER
